@@ -355,7 +355,7 @@ class SimIds:
 class World:
     def __init__(self):
         base = "/dev/shm" if os.path.isdir("/dev/shm") and os.access("/dev/shm", os.W_OK) else None
-        self.root = tempfile.mkdtemp(prefix="simdisk-", dir=base)
+        self.root = os.path.realpath(tempfile.mkdtemp(prefix="simdisk-", dir=base))
         self.events: list = []
         self.faults: Counter = Counter()
         self.probes: Counter = Counter()
@@ -405,7 +405,9 @@ class World:
                 p = os.fspath(p)
             if not isinstance(p, str):
                 return None
-            ap = os.path.abspath(p)
+            # the file a path names is decided by the file system, not by the spelling: `link/../x` is resolved through
+            # the link (a lexical abspath would collapse it to a different file)
+            ap = os.path.realpath(p)
         except Exception:
             return None
         if ap == self.root:
@@ -424,6 +426,28 @@ class World:
     def get(self, rel: str) -> bytes:
         with self._real_open(self.path(rel), "rb") as f:
             return f.read()
+
+    def spelled(self, rel: str, form: str) -> str:
+        """Another spelling of the SimDisk file `rel` (same file for the kernel): through `.` segments and doubled
+        separators, or through a symbolic link to a sub-directory and `..` - which a lexical normalisation
+        (os.path.abspath / normpath) collapses to a DIFFERENT name, where a decoy file is placed."""
+        d, base = os.path.split(rel)
+        if form == "dots":
+            return os.path.join(self.root, d, ".", "") + os.sep + base if d else os.path.join(self.root, ".", base)
+        if form == "symlink_dotdot":
+            inner = os.path.join(self.root, d, "inner-2024")
+            os.makedirs(inner, exist_ok=True)
+            proj = os.path.join(self.root, "proj")
+            os.makedirs(proj, exist_ok=True)
+            link = os.path.join(proj, "latest")
+            if not os.path.islink(link):
+                os.symlink(inner, link)
+            decoy = os.path.join(proj, base)  # what `proj/latest/../<base>` collapses to lexically
+            if not os.path.exists(decoy):
+                with self._real_open(decoy, "wb") as f:
+                    f.write(b"# decoy at the lexically collapsed name\n1 1 9.5 9.5 9.5 9.5 -1\n2 7 8.5 8.5 8.5 8.5 1\n")
+            return os.path.join(link, "..", base)
+        return self.path(rel)
 
     def mkdir(self, rel: str) -> str:
         p = self.path(rel)
